@@ -196,10 +196,6 @@ impl<L: LitName> Subject for AigSkip<L> {
     fn boundaries(&self, input: &[u8]) -> Vec<usize> {
         binary_boundaries(input)
     }
-    fn line_breaks(&self, input: &[u8]) -> Vec<usize> {
-        let (lo, hi) = binary_section(input);
-        input.iter().enumerate().filter(|(i, &b)| b == b'\n' && !(*i >= lo && *i < hi)).map(|(i, _)| i).collect()
-    }
     fn run(&self, reader: DeferredReader<'_>, emit: &mut dyn FnMut(String)) -> End {
         let p = tri!(binary::Parser::<L>::new(LineReader::new(reader), binary::Config::default()));
         emit(format!("header {:?}", p.header()));
@@ -241,11 +237,6 @@ impl<L: LitName> Subject for AigParse<L> {
     fn boundaries(&self, input: &[u8]) -> Vec<usize> {
         binary_boundaries(input)
     }
-    fn line_breaks(&self, input: &[u8]) -> Vec<usize> {
-        // LF-valued bytes inside the and-gate section are data, not line ends
-        let (lo, hi) = binary_section(input);
-        input.iter().enumerate().filter(|(i, &b)| b == b'\n' && !(*i >= lo && *i < hi)).map(|(i, _)| i).collect()
-    }
 }
 
 pub struct AigStream<L>(pub PhantomData<fn() -> L>);
@@ -255,11 +246,6 @@ impl<L: LitName> Subject for AigStream<L> {
     }
     fn boundaries(&self, input: &[u8]) -> Vec<usize> {
         binary_boundaries(input)
-    }
-    fn line_breaks(&self, input: &[u8]) -> Vec<usize> {
-        // LF-valued bytes inside the and-gate section are data, not line ends
-        let (lo, hi) = binary_section(input);
-        input.iter().enumerate().filter(|(i, &b)| b == b'\n' && !(*i >= lo && *i < hi)).map(|(i, _)| i).collect()
     }
     fn run(&self, reader: DeferredReader<'_>, emit: &mut dyn FnMut(String)) -> End {
         let p = tri!(binary::Parser::<L>::new(LineReader::new(reader), binary::Config::default()));
@@ -387,6 +373,7 @@ pub fn binary_boundaries(input: &[u8]) -> Vec<usize> {
 }
 
 /// Byte range of the and-gate section of a binary AIGER file (empty range if not determinable).
+#[allow(dead_code)]
 pub fn binary_section(input: &[u8]) -> (usize, usize) {
     let b = binary_boundaries(input);
     // inside the section every byte is a boundary: find the maximal run of consecutive boundaries
